@@ -111,6 +111,7 @@ func (c *c08Case) runPresence(ctx *core.Ctx) {
 		return // a nil struct field is the unconstrained zone below; without Fill the type adds nothing
 	}
 	files := Files{"other.vuego": "x"}
+	c08Placeholders(files)
 	yml := func(i int) string { _, y, _ := c08Val(c.Type, i); return c.Var + ": " + y + "\n" }
 	if has(4) {
 		files["theme.yml"] = yml(4) + "d2: theme\n"
@@ -396,7 +397,21 @@ var c08Ops = []string{"fill1", "fill2", "fillS", "assignK", "assignJ", "new", "l
 var c08CurConfig = c08Config
 
 func c08Files() Files {
-	return Files{"theme.yml": "k: cfgT\n", "data/a.yml": "k: cfgK\n", "fm.vuego": "---\nk: fmK\n---\n{{ k }}|{{ j }}", "plain.vuego": "{{ k }}|{{ j }}"}
+	return c08Placeholders(Files{"theme.yml": "k: cfgT\n", "data/a.yml": "k: cfgK\n", "fm.vuego": "---\nk: fmK\n---\n{{ k }}|{{ j }}", "plain.vuego": "{{ k }}|{{ j }}"})
+}
+
+// c08Placeholders adds config files that define nothing - a null document, a comment, a list, a
+// scalar, broken YAML, an empty file - between and after the ones that do: they change nothing.
+func c08Placeholders(f Files) Files {
+	f["data/a0_null.yml"] = "---\n"
+	f["data/a5_todo.yml"] = "---\n# nothing here yet\n"
+	f["data/c_tilde.yml"] = "~\n"
+	f["data/d_list.yml"] = "- x\n- y\n"
+	f["data/e_bad.yml"] = ": [bad\n  yaml: {\n"
+	f["data/f_empty.yml"] = ""
+	f["data/g_scalar.yml"] = "just text\n"
+	f["data/h_end.yml"] = "---\n...\n"
+	return f
 }
 
 // visibleFile is what Render() of the loaded file must print: its own front-matter wins.
